@@ -160,7 +160,7 @@ CLAIMED = {
              "exactly the later sections are shifted, by exactly the bytes inserted; (R4) each getter reads its own "
              "section; (R5) the record walker keeps cursor and remaining length in lock-step. Three genuine defects were "
              "found: two repaired (fix: commits), one recorded as known finding (update_records' unbounded walk on "
-             "hostile record data). (R6) every (section index, record count) pair handed to the pointer-rewriting walker names the same section; (R7) convert_records: a char buffer later read as a C string is written only by the text producers (compose_name, address formatters); message bytes go into a std::string with explicit length.",
+             "hostile record data). (R6) every (section index, record count) pair handed to the pointer-rewriting walker names the same section; (R7) convert_records: a char buffer later read as a C string is written only by the text producers (compose_name, address formatters); message bytes go into a std::string with explicit length. (R8) a decoded compression pointer (message offset) meets a records-relative offset only after the 12-byte header was accounted for on one side (both decoders: compose_name, update_dname).",
         note="NOT decided: pointer-rewriting arithmetic, name length limits (255 octets), typed record data, "
              "re-parse equality. The add_record family reaches the indices through pointers-to-member, outside E-BOUNDS' "
              "language: its invariant obligations are carried by R3's shape rules, not proved.",
